@@ -80,6 +80,8 @@ def elem_ite(c, a, b):
 
 
 class Dtype(object):
+    _pyvc_eq = True
+
     def __init__(self, name):
         self.name = name
 
